@@ -103,6 +103,7 @@ func runBurst(s burstSpec) (probe []burstProbe, snap *snapshot, panics int32) {
 					resync(j / burstSync)
 				}
 				k := s.Univ[j]
+				beat()
 				switch code {
 				case bSetIfAbsent:
 					if single != nil {
